@@ -181,6 +181,24 @@ func (k msgServer) UpdateParams(goCtx context.Context, req *types.MsgUpdateParam
 	}
 
 	ctx := sdk.UnwrapSDKContext(goCtx)
+
+	// the locked/spent eFUND ledgers and queued purchase orders are denominated in the current denom.
+	// Changing it underneath them makes the next BeginBlocker panic ("invalid coin denominations")
+	// and halts the chain, so it is only possible while nothing is recorded yet.
+	if currentDenom := k.GetParamDenom(ctx); currentDenom != "" && req.Params.Denom != currentDenom && req.Params.Validate() == nil {
+		if !k.GetTotalLockedUnd(ctx).IsZero() || !k.GetTotalSpentEFUND(ctx).IsZero() ||
+			len(k.GetAllRaisedPurchaseOrders(ctx)) > 0 || len(k.GetAllAcceptedPurchaseOrders(ctx)) > 0 {
+			return nil, sdkerrors.Wrapf(types.ErrInvalidDenomination, "denom cannot be changed from %s to %s while eFUND or purchase orders exist", currentDenom, req.Params.Denom)
+		}
+		// re-denominate the (zero) totals
+		if err := k.SetTotalLockedUnd(ctx, sdk.NewInt64Coin(req.Params.Denom, 0)); err != nil {
+			return nil, err
+		}
+		if err := k.SetTotalSpentEFUND(ctx, sdk.NewInt64Coin(req.Params.Denom, 0)); err != nil {
+			return nil, err
+		}
+	}
+
 	if err := k.SetParams(ctx, req.Params); err != nil {
 		return nil, err
 	}
